@@ -242,6 +242,13 @@ func (ex *Exec) abstractCall(st *PState, fn *ssa.Function, full string, args []V
 	}
 	rt := fn.Signature.Recv().Type()
 	if ex.isFelt(rt) {
+		switch fn.Name() {
+		case "MulByNonResidue", "MulByNonResidueInv", "MulBy3", "MulBy5", "MulBy13":
+			// small helper methods written in terms of the summarised operations: inline them
+			if fn.Blocks != nil {
+				return nil, false
+			}
+		}
 		return ex.feltMethod(st, fn, args), true
 	}
 	if ex.absKindPtr(rt) == "xexp" {
@@ -380,7 +387,23 @@ func (ex *Exec) realMethod(st *PState, fn *ssa.Function, args []Value) Value {
 		return &TupleV{V: []Value{set(ts.Real(new(big.Rat).SetInt(v))), &IfaceV{}}}
 	case "SetBigInt":
 		t := ex.ldT(st, args[1])
+		if t.op == "uf:real2int" {
+			// the integer is the image of an abstract element under BigInt: recover the element
+			return set(t.args[0])
+		}
 		return set(ts.ToReal(t))
+	case "BigInt":
+		// the canonical integer of an abstract element is an opaque injective image of it (only
+		// SetBigInt can consume it)
+		x := L(0)
+		var it *Term
+		if x.IsConst() && x.rval != nil && x.rval.IsInt() && x.rval.Sign() >= 0 {
+			it = ts.Int(new(big.Int).Set(x.rval.Num()))
+		} else {
+			it = ts.App(ts.DeclareUF("real2int", []Sort{SReal}, SInt, nil, nil), x)
+		}
+		ex.store(st, args[1], it)
+		return args[1]
 	case "MulBy3":
 		return set(ts.Mul(rc(3), L(0)))
 	case "MulBy5":
